@@ -5,3 +5,4 @@ import Model.Assign
 import Model.ErrorPolicy
 import Model.FileStore
 import Model.PathsStore
+import Model.Group
